@@ -1,0 +1,28 @@
+//go:build verif
+
+// Copyright 2026 The Scriggo Authors. All rights reserved.
+// Use of this source code is governed by a BSD-style
+// license that can be found in the LICENSE file.
+
+// Package c04 is a verification bridge (build tag "verif") that exposes the
+// token stream of the unexported lexer of internal/compiler to the external
+// correspondence harness of properties C04 and C21. It adds no behaviour.
+package c04
+
+import "github.com/open2b/scriggo/internal/compiler"
+
+// Token is one lexer token.
+type Token = compiler.VerifC04Token
+
+// Error is the lexer's error.
+type Error = compiler.VerifC04Error
+
+// Scan runs scanProgram (program true) or scanTemplate on src and returns the
+// tokens and the error of the lexer. A panic in the lexer goroutine kills the
+// process: call it in a child process for untrusted bytes.
+func Scan(src []byte, format int, program, noParseShow bool) ([]Token, *Error) {
+	return compiler.VerifC04Scan(src, format, program, noParseShow)
+}
+
+// TokenNames returns the name of every token type, indexed by type.
+func TokenNames() []string { return compiler.VerifC04TokenNames() }
